@@ -31,6 +31,16 @@ public:
                                                           [this, ifeature, &storage](auto it)
                                                           { this->select_scalar(ifeature, storage, it); });
         }
+        else if constexpr (tcomputer::generated_type == generator_type::structured)
+        {
+            // NB: a structured feature with a single component is described (and thus accessed) as a scalar feature!
+            if (std::get<1>(this->process(ifeature)) == 1)
+            {
+                this->template iterate<tcomputer::input_rank>(
+                    samples, ifeature, this->mapped_original(ifeature), [this, ifeature, &storage](auto it)
+                    { this->select_struct(ifeature, storage.reshape(-1, 1, 1, 1), it); });
+            }
+        }
     }
 
     ///
